@@ -198,8 +198,8 @@ def h_switch(ctx, n, big=False, real_switch=False):
     data = env.tobytes(ctx, [1, [10, 13, 14, 16, 99, 200, 1, 2, 3, 4][int(ctx.int('typeidx', 0, 9))], 0xff, ctx.int('lenlow', 0xe0, 255)] + list(ctx.bytes('xid', 4)) + [0] * (n - 8))
   else:
     data = ctx.bytes('data', n)
-  b1 = echo_bytes(0x11111111, b'ab'); b2 = echo_bytes(0x22222222)
-  alive = True
+  b1 = echo_bytes(0x11111111, b'ab'); b2 = echo_bytes(0x22222222); b3 = echo_bytes(0x33333333, b'xyz')
+  alive = True; later = False; closedA = False; n0 = rest0 = sent0 = nsp0 = 0; restA = b''
   wA, wB = workers
   try:
     socks[1].feed(b1)
@@ -210,16 +210,32 @@ def h_switch(ctx, n, big=False, real_switch=False):
     socks[1].feed(b2)
     sel = g.send(([wB], [], []))
     sel = g.send(([], [], []))
+    # a later TCP segment on connection A (a well-formed echo request): a connection that was closed because of what it received stays
+    # closed - nothing is decoded from bytes that follow; a connection that was served and has nothing buffered decodes it normally
+    closedA = wA.closed or wA._shutdown_send; n0 = len(got[0]); restA = wA.receive_buf; rest0 = len(restA); sent0 = len(wA.send_buf)
+    nsp0 = len(conns[0].unpackers.spans)
+    if not big and wA in loop._workers and not socks[0].closed and (closedA or rest0 == 0):
+      later = True
+      socks[0].feed(b3)
+      sel = g.send(([wA], [], []))
+      sel = g.send(([], [], []))
   except StopIteration:
     alive = False
   ctx.check('terminates within step budget', not flag)
   ctx.check('I/O loop keeps running', alive)
   ctx.check('sibling connection receives its messages unchanged', got[1] == [(2, b1), (2, b2)])
   ctx.check('sibling connection stays open', not wB.closed)
+  if later:
+    if closedA:
+      ctx.witness('later-segment-on-closed')
+      ctx.check('a connection closed for what it received decodes nothing from later segments', len(got[0]) == n0 and len(conns[0].unpackers.spans) == nsp0)
+    elif rest0 == 0:
+      ctx.witness('later-segment-on-served')
+      ctx.check('a served connection decodes the next message normally', conns[0].unpackers.spans[nsp0:] == [(0, len(b3))] and (real_switch or got[0][n0:] == [(2, b3)]))
   isolation_clauses(ctx, conns[0].unpackers)
-  if not wA.closed and not wA._shutdown_send:
+  if not closedA:
     ctx.witness('kept-open')
-    rest = wA.receive_buf
+    rest = restA
     if len(rest) >= 4:
       ln = (rest[2] << 8) | rest[3]
       ctx.check('no complete frame left stuck', ctx.And(rest[0] == 1, ln > len(rest)))
@@ -241,6 +257,6 @@ def obligations(tier):
   return [
     Obligation('O1_controller', h_controller, [dict(n=k) for k in ns_c], witnesses=('kept-open', 'closed'), max_decisions=20000, conc_cap=300,
                desc='controller I/O loop: N unconstrained bytes on one connection; termination, containment, sibling delivery'),
-    Obligation('O2_switch', h_switch, [dict(n=k) for k in ns_s] + [dict(n=k, real_switch=True) for k in (8, 12)] + [dict(n=65535, big=True), dict(n=65535, big=True, real_switch=True)], witnesses=('kept-open', 'closed'), max_decisions=20000,
+    Obligation('O2_switch', h_switch, [dict(n=k) for k in ns_s] + [dict(n=k, real_switch=True) for k in (8, 12)] + [dict(n=65535, big=True), dict(n=65535, big=True, real_switch=True)], witnesses=('kept-open', 'closed', 'later-segment-on-closed', 'later-segment-on-served'), max_decisions=20000,
                desc='switch I/O loop + OFConnection.read: N unconstrained bytes; termination, containment, sibling delivery, no stuck frame'),
   ]
